@@ -254,7 +254,7 @@ def _doc_case(rng):
     for k in kinds:
         specs.append(_files_spec(rng, clean) if k == "f" else _license_spec(rng, clean))
     return {"kind": "doc", "clean": clean, "hops": _hops(rng, clean), "specs": specs,
-            "form": rng.choice([0, 0, 2, 3, 4]), "strict": rng.random() < 0.8}
+            "form": rng.choice([0, 0, 2, 3, 4]), "strict": rng.random() < 0.8, "earlier": rng.random() < 0.15}
 
 
 BASE_DOCS = [
@@ -299,7 +299,8 @@ def _parsedoc_case(rng):
         else:
             ls[i] = rng.choice([" ", "\t"]) + ls[i]
         t = "\n".join(ls)
-    return {"kind": "parsedoc", "text": t, "form": rng.choice([0, 0, 2, 3, 4]), "strict": rng.random() < 0.7}
+    return {"kind": "parsedoc", "text": t, "form": rng.choice([0, 0, 2, 3, 4]), "strict": rng.random() < 0.7,
+            "earlier": rng.random() < 0.15}
 
 
 def _codec_case(rng):
@@ -410,7 +411,20 @@ def _val(C, v):
     return C.License(v["lic"][0], v["lic"][1])
 
 
-def _reread(C, text, form, strict):
+def _reread(C, text, form, strict, earlier=False):
+    if earlier and form in (2, 3):
+        # EARLIER USE in this process: the same bytes were parsed before under other encodings (results discarded);
+        # the parse under test then gets the same lines as UTF-8 bytes.  Nothing may be remembered across parses.
+        import warnings
+        bl = [l.encode("utf-8") for l in (list(io.StringIO(text)) if form == 2 else text.split("\n"))]
+        with warnings.catch_warnings():
+            warnings.simplefilter("ignore")
+            for enc in ("iso-8859-1", "cp1251", "utf-16-le"):
+                try:
+                    C.Copyright(list(bl), encoding=enc, strict=False).dump()
+                except Exception:
+                    pass
+        return C.Copyright(bl, strict=strict)
     if form == 0:
         seq = text
     elif form == 2:
@@ -482,13 +496,13 @@ def run_impl(case):
         d1 = c1.dump()
         v1 = _view(C, c1)
         try:
-            c2 = _reread(C, d1, case["form"], case["strict"])
+            c2 = _reread(C, d1, case["form"], case["strict"], case.get("earlier", False))
         except Exception as e:
             return {"dump1": d1, "v1": v1, "parse_err": err_kind(e)}
         return {"dump1": d1, "v1": v1, "v2": _view(C, c2), "dump2": c2.dump()}
     # parsedoc
     try:
-        c = _reread(C, case["text"], case["form"], case["strict"])
+        c = _reread(C, case["text"], case["form"], case["strict"], case.get("earlier", False))
     except Exception as e:
         return {"err": err_kind(e)}
     return {"v": _view(C, c), "dump": c.dump()}
